@@ -25,6 +25,9 @@
    NAME LENGTH: every ordinary case runs once more with its names replaced by a name table of the lengths 1 ... 1000
    (specification lemma RenameInvariant); the spec mutant ~M_NamesComparedWhole ("a name of NameW or more characters
    is never found") must be rejected by TLC.
+   NUMBER OF SELECTORS: ordinary cases run once more with the list padded to 9 / 10 / 16 / 40 selectors by selectors
+   no document matches (lemma PadIrrelevant; every 2nd case in quick); the spec mutant ~M_RemovePerSelector ("delete
+   while scanning the members by index") must be rejected by TLC.
 3. A difference is a violation record {plugin, kind, as_swap_delete_model, event, ...}; records matching a
    known finding are KNOWN-FINDING, everything else is a VIOLATION.
 """
@@ -99,12 +102,18 @@ def run(ctx):
         if mn.ok or mn.violated != "MutantInv":
             raise vlib.Infra("spec mutant ~M_NamesComparedWhole was not rejected by TLC (%s)\n%s" %
                              (mn.violated, mn.out[-1500:]))
+        msc = ctx.tlc("FieldSelect", "FieldSelect_mutant_scan.cfg", timeout=600, deadlock=False,
+                      name="mutant delete while scanning by index (must be rejected)")
+        if msc.ok or msc.violated != "MutantScanInv":
+            raise vlib.Infra("spec mutant ~M_RemovePerSelector was not rejected by TLC (%s)\n%s" %
+                             (msc.violated, msc.out[-1500:]))
         cex = re.search(r"State 2:.*?\n(.*?)\n\s*\n", mut.out, re.S)
         ctx.extra["spec_mutants_rejected"] = ["M_DepthBuffersDisjoint=FALSE: " +
                                               (" ".join(cex.group(1).split())[:700] if cex else "?"),
                                               "M_AllDocumentKindsFiltered=FALSE: MutantKindInv violated",
                                               "M_BuffersPerInstance=FALSE: InstInv violated",
-                                              "M_NamesComparedWhole=FALSE: MutantInv violated"]
+                                              "M_NamesComparedWhole=FALSE: MutantInv violated",
+                                              "M_RemovePerSelector=FALSE: MutantScanInv violated"]
         total = len(cases)
         ctx.extra["documents"] = docs
         ctx.rng.shuffle(cases)          # the whole exported scope is replayed in both tiers; the seed orders it
@@ -153,7 +162,7 @@ def run(ctx):
         out = os.path.join(ctx.scratch, "c18_out_%s.json" % name)
         rc, txt = ctx.run_bin(binary, "^TestVerifC18$",
                               env={"VERIF_CASES": path, "VERIF_OUT": out, "VERIF_E2E": e2e_path, "VERIF_STRESS": stress_path,
-                                   "VERIF_STRESS_MS": stress_ms, "VERIF_NAME_EVERY": 3 if ctx.tier == "quick" else 1, "VERIF_NAME_ALL": 1 if ctx.replay else 0,
+                                   "VERIF_STRESS_MS": stress_ms, "VERIF_NAME_EVERY": 3 if ctx.tier == "quick" else 1, "VERIF_PAD_EVERY": 2 if ctx.tier == "quick" else 1, "VERIF_NAME_ALL": 1 if ctx.replay else 0,
                                    "LOG_LEVEL": "error"}, timeout=9000)
         if rc != 0 or not os.path.exists(out):
             raise vlib.Infra("C18 harness (%s) failed rc=%s:\n%s" % (name, rc, txt[-3000:]))
